@@ -600,6 +600,7 @@ Lemma dump_with_flags : forall ned md p tmpl props cz wk cal cen ex,
   match p1 with
   | None => DErr
   | Some q =>
+    if match cz with Some (h, m) => negb (valid_zone (mkZone h m)) | None => false end then DBadInput else
     let p2 := match cz with
               | None => Some q
               | Some (h, m) => to_time_zone md q (mkZone h m)
@@ -648,6 +649,9 @@ Proof.
            else Some p) = Some p).
   { destruct p as [d t z]. destruct d; reflexivity. }
   rewrite P1.
+  assert (P0 : match zone_cz (tzone p) with Some (h, m) => negb (valid_zone (mkZone h m)) | None => false end = false).
+  { unfold zone_cz. destruct ((zh (tzone p) =? 0)%Z && (zm (tzone p) =? 0)%Z); reflexivity. }
+  rewrite P0.
   assert (P2 : match zone_cz (tzone p) with None => Some p | Some (h, m) => to_time_zone md p (mkZone h m) end = Some p).
   { unfold zone_cz. destruct ((zh (tzone p) =? 0)%Z && (zm (tzone p) =? 0)%Z) eqn:E; [|reflexivity].
     apply zone_utc_inv in E. destruct p as [d t z]. cbn [tzone] in E. subst z. apply to_time_zone_same_utc. }
@@ -1555,6 +1559,7 @@ Lemma dump_with_cust : forall ned md p tmpl props h m k xp,
   mem "week_of_year" props || mem "day_of_week" props = (k =? 2) ->
   mem "month_of_year" props || mem "day_of_month" props || mem "day_of_year" props = negb (k =? 2) ->
   mem "century" props = true -> mem "expanded_year_digits" props = xp ->
+  valid_zone (mkZone h m) = true ->
   dump_with ned md p tmpl props (Some (h, m)) =
   match cust_point md k p (mkZone h m) with
   | None => DErr
@@ -1562,8 +1567,8 @@ Lemma dump_with_cust : forall ned md p tmpl props h m k xp,
               else match render md r tmpl with Some s => DOk s | None => DErr end
   end.
 Proof.
-  intros ned md p tmpl props h m k xp F1 F2 F3 F4.
-  rewrite (dump_with_flags ned md p tmpl props _ _ _ _ _ F1 F2 F3 F4). cbv zeta.
+  intros ned md p tmpl props h m k xp F1 F2 F3 F4 VZ.
+  rewrite (dump_with_flags ned md p tmpl props _ _ _ _ _ F1 F2 F3 F4). cbv zeta. rewrite VZ. cbn [negb].
   unfold cust_point, cust_date, year_bad. destruct p as [d t z]. cbn [tdate].
   destruct (k =? 2); cbn [negb andb].
   - destruct (to_week_date md d); reflexivity.
@@ -1707,7 +1712,7 @@ Theorem do_dump_custom : forall md ned ext xp k p, In (ned, ext, xp, k) cust_cas
 Proof.
   intros md ned ext xp k p C. destruct (cust_case ned ext xp k C) as (NP & EX & F1 & F2 & F3 & F4 & _).
   unfold do_dump. rewrite NP. unfold dump. rewrite NP, EX.
-  apply (dump_with_cust ned md p _ _ 0 0 k xp F1 F2 F3 F4).
+  apply (dump_with_cust ned md p _ _ 0 0 k xp F1 F2 F3 F4 eq_refl).
 Qed.
 
 (* ---------- reading the text back ---------- *)
@@ -1976,8 +1981,9 @@ Proof.
   match goal with X : dtoks_eqb _ _ = true |- _ => apply dtoks_eqb_eq in X; subst tmpl end.
   match goal with X : strs_eqb _ _ = true |- _ => apply strs_eqb_eq in X; subst props end.
   repeat match goal with X : (_ =? _) = true |- _ => apply Z.eqb_eq in X end. subst h m.
-  rewrite (dump_with_cust ned md p _ _ _ _ k xp); [reflexivity| | | |];
-    rewrite !mem_zlit_props by reflexivity; assumption.
+  rewrite (dump_with_cust ned md p _ _ _ _ k xp); [reflexivity| | | | |];
+    try (rewrite !mem_zlit_props by reflexivity; assumption).
+  unfold valid_zone, zlit_zone, sgn. cbn [zh zm]. destruct zk, neg; repeat split_if; lia.
 Qed.
 
 (* the literal zone: printed as written, read back as the zone it denotes *)
